@@ -127,7 +127,7 @@ impl Prop for C18 {
             .boxed();
         vec![Part { name: "histories".into(), strategy: s, cases: tier.pick(20_000, 500_000) }]
     }
-    fn extra(&self, _ctx: &mut Ctx) -> Vec<(String, Verdict)> {
+    fn extra(&self, _ctx: &mut Ctx) -> Vec<(String, Verdict, Option<Case18>)> {
         // Regex: Send + Sync is a compile-time fact: build the assertion crate against the current tree
         let dir = verif_dir().join("harness").join("sendsync");
         let out = std::process::Command::new("cargo")
@@ -144,6 +144,7 @@ impl Prop for C18 {
                     vec![(
                         "send-sync".into(),
                         Verdict::Fail(Failure { sub: "send-sync".into(), expected: "regexml::Regex: Send + Sync".into(), actual: "the assertion crate does not compile".into(), detail: err.lines().filter(|l| l.contains("cannot be")).take(3).collect::<Vec<_>>().join(" | ") }),
+                        None,
                     )]
                 } else {
                     eprintln!("harness error: sendsync crate failed to build for another reason:\n{err}");
